@@ -8,7 +8,10 @@ dst = f"/verif/seeded/{sid}"
 os.makedirs(dst, exist_ok=True)
 if wt != "-":
     for f in glob.glob(f"{wt}/seed/*"):
-        shutil.copy(f, dst)
+        if os.path.isdir(f):
+            shutil.copytree(f, os.path.join(dst, os.path.basename(f)), dirs_exist_ok=True, ignore=shutil.ignore_patterns("target"))
+        else:
+            shutil.copy(f, dst)
 # regenerate the patch from the worktree itself (library sources only)
     diff = subprocess.run(["git", "-C", wt, "diff", "--", "truc/src", "truc_runtime/src"], capture_output=True, text=True).stdout
     if diff.strip():
